@@ -735,6 +735,11 @@ func (c *Connection) processResult(from any, req *incomingRequest, result any, e
 			}
 		} else {
 			err = c.internalErrorf("%#v returned a malformed result for %q: %w", from, req.Method, respErr)
+			// The result cannot be encoded, but the caller is still owed a
+			// response: report the failure in its place.
+			if response, respErr := NewResponse(req.ID, nil, err); respErr == nil {
+				c.write(notDone{req.ctx}, response)
+			}
 		}
 	} else { // req is a notification
 		if result != nil {
